@@ -189,12 +189,12 @@ func digitsBig(neg bool, d []int) *big.Int {
 }
 
 type ntFail struct {
-	Op      string `json:"op"`     // fromString | toString | fromBigEndianBytes | toBigEndianBytes | address | hex | path
+	Op      string `json:"op"` // fromString | toString | fromBigEndianBytes | toBigEndianBytes | address | hex | path
 	Ty      string `json:"ty"`
-	Class   string `json:"class"`  // si | ui | sf | uf
-	Width   string `json:"width"`  // native | big
-	Dev     string `json:"dev"`    // accepts-specified-nil | nil-for-specified-value | wrong-value | internal | ...
-	Shape   string `json:"shape"`  // semantic shape of the input (sign / range situation)
+	Class   string `json:"class"` // si | ui | sf | uf
+	Width   string `json:"width"` // native | big
+	Dev     string `json:"dev"`   // accepts-specified-nil | nil-for-specified-value | wrong-value | internal | ...
+	Shape   string `json:"shape"` // semantic shape of the input (sign / range situation)
 	Engine  string `json:"engine"`
 	Input   string `json:"input"`
 	Msg     string `json:"msg"`
